@@ -34,6 +34,13 @@ FALSE = ('const', False)
 NONE = ('const', None)
 
 
+def lit(v):
+    """constant term; non-boolean constants carry their type so that 0 / 0.0 / False stay distinct."""
+    if isinstance(v, bool) or v is None:
+        return ('const', v)
+    return ('lit', type(v).__name__, repr(v))
+
+
 def mk_not(a):
     if a == TRUE:
         return FALSE
@@ -189,12 +196,13 @@ class Extractor:
         self.params = [x.arg for x in a.posonlyargs + a.args]
         self.inline = inline or {}       # method name -> FunctionDef of a small pure method
         self.depth = 0
+        self.local_defs = {}             # nested function definitions (closures over the enclosing scope)
 
     # ---------------------------------------------------------------- expressions
     def expr(self, e, p: Path, bound=None):
         bound = bound or {}
         if isinstance(e, ast.Constant):
-            return ('const', e.value)
+            return lit(e.value)
         if isinstance(e, ast.Name):
             if e.id in bound:
                 return bound[e.id]
@@ -219,7 +227,7 @@ class Extractor:
         if isinstance(e, ast.UnaryOp) and isinstance(e.op, ast.Not):
             return mk_not(self.truth(self.expr(e.operand, p, bound)))
         if isinstance(e, ast.UnaryOp) and isinstance(e.op, ast.USub) and isinstance(e.operand, ast.Constant):
-            return ('const', -e.operand.value)
+            return lit(-e.operand.value)
         if isinstance(e, ast.BoolOp):
             vals = [self.truth(self.expr(v, p, bound)) for v in e.values]
             return mk_and(*vals) if isinstance(e.op, ast.And) else mk_or(*vals)
@@ -254,7 +262,15 @@ class Extractor:
         if isinstance(e, ast.JoinedStr):
             return ('opaque-str',)
         if isinstance(e, ast.BinOp):
-            return ('binop', type(e.op).__name__, self.expr(e.left, p, bound), self.expr(e.right, p, bound))
+            l, r = self.expr(e.left, p, bound), self.expr(e.right, p, bound)
+            if isinstance(e.op, ast.Add) and l[0] == 'lit' and r[0] == 'lit' and l[1] == 'str' and r[1] == 'str':
+                import ast as _a
+                return lit(_a.literal_eval(l[2]) + _a.literal_eval(r[2]))
+            if isinstance(e.op, ast.Add) and l[0] == 'binop' and l[1] == 'Add' and l[3][0] == 'lit' \
+                    and r[0] == 'lit' and l[3][1] == 'str' and r[1] == 'str':
+                import ast as _a
+                return ('binop', 'Add', l[2], lit(_a.literal_eval(l[3][2]) + _a.literal_eval(r[2])))
+            return ('binop', type(e.op).__name__, l, r)
         raise Unsupported(f'expression {type(e).__name__}')
 
     def boolish(self, t):
@@ -265,6 +281,8 @@ class Extractor:
         """term used in boolean context."""
         if t[0] == 'const':
             return TRUE if t[1] else FALSE
+        if t[0] == 'lit':
+            return FALSE if t[2] in ('0', '0.0', "''") else TRUE
         return t
 
     def compare(self, op, a, b, rhs_ast):
@@ -273,7 +291,7 @@ class Extractor:
         if isinstance(op, (ast.NotEq, ast.IsNot)):
             return mk_not(self.eq(a, b))
         if isinstance(op, (ast.In, ast.NotIn)):
-            if b[0] == 'list' and all(x[0] == 'const' for x in b[1]):
+            if b[0] == 'list' and all(x[0] in ('const', 'lit') for x in b[1]):
                 f = mk_or(*[self.eq(a, x) for x in b[1]])
             else:
                 f = ('in', a, b)
@@ -289,8 +307,10 @@ class Extractor:
     def eq(self, a, b):
         if a == b:
             return TRUE
-        if a[0] == 'const' and b[0] == 'const':
-            return TRUE if a[1] == b[1] and type(a[1]) == type(b[1]) else FALSE
+        if a[0] in ('const', 'lit') and b[0] in ('const', 'lit'):
+            if a[0] == 'lit' and b[0] == 'lit' and {a[1], b[1]} <= {'int', 'float'}:
+                return TRUE if float(a[2]) == float(b[2]) else FALSE
+            return TRUE if a == b else FALSE
         # x == True  ->  x ; x == False -> not x   (for boolean-valued x)
         for x, y in ((a, b), (b, a)):
             if y == TRUE and self.boolish(x):
@@ -305,6 +325,15 @@ class Extractor:
 
     def call(self, e: ast.Call, p: Path, bound):
         fn = e.func
+        if isinstance(fn, ast.Name) and fn.id == 'filter' and len(e.args) == 2 and isinstance(e.args[0], ast.Lambda) \
+                and len(e.args[0].args.args) == 1:
+            lam = e.args[0]
+            coll = self.expr(e.args[1], p, bound)
+            b2 = dict(bound)
+            v = ('v', len(b2))
+            b2[lam.args.args[0].arg] = v
+            cond = self.truth(self.expr(lam.body, p, b2))
+            return ('filtermap', ((canon(coll), canon(cond)),), v)
         args = [self.expr(a, p, bound) for a in e.args]
         if isinstance(fn, ast.Name):
             n = fn.id
@@ -312,6 +341,13 @@ class Extractor:
                 return self.truth(args[0])
             if n == 'len' and len(args) == 1:
                 return ('len', args[0])
+            if n == 'getattr' and len(args) == 2 and args[1][0] == 'lit' and args[1][1] == 'str':
+                import ast as _a
+                name = _a.literal_eval(args[1][2])
+                loc = (args[0], name)
+                if loc in p.store:
+                    return p.store[loc]
+                return ('attr', args[0], name)
             if n == 'isinstance' and len(e.args) == 2:
                 return ('isinstance', args[0], ast.unparse(e.args[1]))
             if n in ('any', 'all') and len(e.args) == 1 and isinstance(e.args[0], (ast.GeneratorExp, ast.ListComp)):
@@ -364,7 +400,7 @@ class Extractor:
             bound[target.id] = term
         elif isinstance(target, (ast.Tuple, ast.List)):
             for i, el in enumerate(target.elts):
-                self.bind(el, ('item', term, ('const', i)), bound)
+                self.bind(el, ('item', term, lit(i)), bound)
         else:
             raise Unsupported('loop target')
 
@@ -491,7 +527,7 @@ class Extractor:
             p.effects.append(('set', (base, target.attr), val))
         elif isinstance(target, (ast.Tuple, ast.List)):
             for i, el in enumerate(target.elts):
-                self.assign(el, ('item', val, ('const', i)), p, bound)
+                self.assign(el, ('item', val, lit(i)), p, bound)
         elif isinstance(target, ast.Subscript):
             base = self.expr(target.value, p, bound)
             key = self.expr(target.slice, p, bound)
@@ -540,6 +576,14 @@ class Extractor:
             p.raised = True
             return [p]
         if isinstance(st, ast.Assign):
+            sp = self.inline_effectful(st.value, p, bound)
+            if sp is not None:
+                out = []
+                for q, rv in sp:
+                    for t in st.targets:
+                        self.assign(t, rv if rv is not None else NONE, q, bound)
+                    out.append(q)
+                return out
             val = self.expr(st.value, p, bound)
             for t in st.targets:
                 self.assign(t, val, p, bound)
@@ -551,6 +595,9 @@ class Extractor:
             return self.call_stmt(st.value, p, bound)
         if isinstance(st, ast.For):
             return self.loop(st, p, bound)
+        if isinstance(st, (ast.FunctionDef,)):
+            self.local_defs[st.name] = st
+            return [p]
         if isinstance(st, ast.Try):
             # try: x = next(gen)  except StopIteration: H     ==   x = next(gen, None); if x is None: H
             if len(st.body) == 1 and isinstance(st.body[0], ast.Assign) and len(st.handlers) == 1 \
@@ -578,7 +625,7 @@ class Extractor:
 
     def pattern(self, pat, subj):
         if isinstance(pat, ast.MatchValue):
-            return self.eq(subj, ('const', pat.value.value)) if isinstance(pat.value, ast.Constant) \
+            return self.eq(subj, lit(pat.value.value)) if isinstance(pat.value, ast.Constant) \
                 else self.eq(subj, ('opaque', ast.unparse(pat.value)))
         if isinstance(pat, ast.MatchOr):
             return mk_or(*[self.pattern(x, subj) for x in pat.patterns])
@@ -586,7 +633,43 @@ class Extractor:
             return TRUE
         raise Unsupported('match pattern')
 
+    def inline_effectful(self, c, p: Path, bound):
+        """call to a nested (closure) function: -> list of (path, return term) or None."""
+        if not (isinstance(c, ast.Call) and isinstance(c.func, ast.Name) and c.func.id in self.local_defs):
+            return None
+        if self.depth >= 4:
+            raise Unsupported('nested inlining depth')
+        fd = self.local_defs[c.func.id]
+        names = [x.arg for x in fd.args.posonlyargs + fd.args.args]
+        b2 = dict(bound)
+        # closure: the nested function sees the enclosing locals
+        for k, v in p.env.items():
+            b2.setdefault(k, v)
+        for nm, a in zip(names, c.args):
+            b2[nm] = self.expr(a, p, bound)
+        sub = Extractor(fd, self.inline, strip_copies=self.strip_copies)
+        sub.params = self.params            # free names that are parameters of the outer function
+        sub.depth = self.depth + 1
+        sub.local_defs = dict(self.local_defs)
+        start = p.clone()
+        start.env = {}
+        paths = sub.block(fd.body, [start], b2)
+        out = []
+        for q in paths:
+            rv = q.ret
+            q.ret = None
+            q.done = False
+            q.env = dict(p.env)
+            if q.raised:
+                q.ret = ('raise',)
+                q.done = True
+            out.append((q, rv))
+        return out
+
     def call_stmt(self, c: ast.Call, p: Path, bound):
+        sp = self.inline_effectful(c, p, bound)
+        if sp is not None:
+            return [q for q, _ in sp]
         fn = c.func
         if isinstance(fn, ast.Attribute) and fn.attr in ('append', 'add') and len(c.args) == 1:
             tgt = self.expr(fn.value, p, bound)
@@ -619,11 +702,21 @@ class Extractor:
     def loop(self, st: ast.For, p: Path, bound):
         if st.orelse:
             raise Unsupported('for-else')
-        coll = self.expr(st.iter, p, bound)
+        it = st.iter
+        guard = None
+        if isinstance(it, ast.Call) and isinstance(it.func, ast.Name) and it.func.id == 'filter' \
+                and len(it.args) == 2 and isinstance(it.args[0], ast.Lambda) and len(it.args[0].args.args) == 1:
+            guard = it.args[0]
+            it = it.args[1]
+        coll = self.expr(it, p, bound)
         b2 = dict(bound)
         var = ('v', len(b2))
         self.bind(st.target, var, b2)
         body = [s for s in st.body if not self.ignorable(s)]
+        if guard is not None:
+            # for x in filter(lambda y: c(y), C): body   ==   for x in C: if c(x): body
+            b2[guard.args.args[0].arg] = var
+            body = [ast.If(test=guard.body, body=body, orelse=[])]
         # early-exit search: every path of the body either returns a constant or has no effect
         sub = Path()
         sub.env = dict(p.env)
@@ -738,6 +831,8 @@ def show(t, depth=0) -> str:
         return '(' + ', '.join(show(x) for x in t) + ')'
     if k == 'const':
         return repr(t[1])
+    if k == 'lit':
+        return t[2]
     if k == 'p':
         return f'arg{t[1]}'
     if k == 'v':
@@ -841,8 +936,10 @@ def names_in(t, acc):
     elif k == 'global':
         acc.add(t[1])
     elif k == 'const':
-        if isinstance(t[1], str):
-            acc.add(repr(t[1]))
+        return
+    elif k == 'lit':
+        if t[1] == 'str':
+            acc.add(t[2])
         return
     for x in t[1:]:
         if isinstance(x, tuple):
